@@ -9,7 +9,7 @@ files=$(grep '^+++ b/' $p | sed 's#^+++ b/##')
 for f in $files; do mkdir -p $ov/tree/$(dirname $f); git -C /repo show $base:$f > $ov/tree/$f; done
 (cd $ov/tree && patch -s -p1 < $p) || { echo "$id: patch does not apply to $base either"; exit 3; }
 { echo '{"Replace": {'; first=1; for f in $files; do [ $first -eq 1 ] || echo ','; first=0; printf '  "/repo/%s": "%s/tree/%s"' "$f" "$ov" "$f"; done; echo; echo '}}'; } > $ov/overlay.json
-out=$(VERIF_OVERLAY=$ov/overlay.json bin/check $id 2>&1); rc=$?
+out=$(VERIF_OVERLAY=$ov/overlay.json bin/check ${id%%-*} 2>&1); rc=$?
 echo "$out" | grep "^violation detail" | sed 's/^violation detail: //' | cut -c1-200 | sort -u | head -8
 python3 - "$id" "$rc" "$base" "$(echo "$out" | grep "^violation detail" | sed 's/^violation detail: //' | cut -c1-200 | sort -u | head -8)" <<'PY'
 import json,sys
